@@ -456,7 +456,7 @@ void vprop_case (VChoices *c, VResult *r)
 #ifdef C03_MODE
   ro.n_max = 100; ro.m_max = 4; ro.big_n = 0; ro.placement_mask = 6;
 #else
-  ro.n_max = 200; ro.m_max = 5; ro.big_n = 4000; ro.placement_mask = 1;
+  ro.n_max = 200; ro.m_max = 5; ro.big_n = 4000; ro.placement_mask = 1; ro.huge_n = 1;
 #endif
   nruns = systematic ? (int) (sizeof sys_n / sizeof sys_n[0]) : 4 + (int) vc_pick (c, 12);
   for (i = 0; i < nruns; i++) {
